@@ -1,7 +1,7 @@
 #!/bin/bash
 # ./seedtest.sh <patch.diff> <ID> [tier]  — applies a seeded change to /repo, runs the check, reverts.
 set -u
-PATCH="$1"; ID="$2"; TIER="${3:-quick}"
+PATCH="$(readlink -f "$1")"; ID="$2"; TIER="${3:-quick}"
 cd /repo || exit 2
 if ! git diff --quiet; then echo "repo has local changes; refusing"; exit 2; fi
 git apply "$PATCH" || { echo "patch does not apply"; exit 2; }
